@@ -1,4 +1,5 @@
 import Memterm.Proofs.InvStep
+import Memterm.Spec.C10
 
 /-
   C10 — display() is a faithful and side-effect-free rendering of the grid.
@@ -11,18 +12,6 @@ import Memterm.Proofs.InvStep
 -/
 namespace Memterm
 namespace C10
-
-/-- the documented rendering of one row, on the list of its cells' texts: left-to-right
-    concatenation, skipping the cell that follows a double-width character -/
-def specRender (W : Nat → Nat) : List (List Nat) → List Nat
-  | [] => []
-  | d :: rest =>
-    d ++ (if wideText W d then specRender W (rest.drop 1) else specRender W rest)
-termination_by l => l.length
-decreasing_by all_goals simp_wf <;> omega
-
-def rowTexts (s : Screen) (y : Nat) (from_ : Nat) : List (List Nat) :=
-  (List.range' from_ (s.columns - from_)).map (fun x => (s.cell y x).data)
 
 theorem renderRow_spec (env : Env) (s : Screen) (y : Nat) (fuel x : Nat) (h : s.columns ≤ x + fuel) :
     renderRow env s y fuel x false = specRender env.W (rowTexts s y x) ∧
@@ -65,12 +54,6 @@ theorem display_length (env : Env) (s : Screen) : (display env s).length = s.lin
 
 /-- display() does not change the state -/
 theorem display_pure (env : Env) (s : Screen) : step env s .display = s := rfl
-
-/-- a history with its display() calls removed -/
-def strip : List Call → List Call
-  | [] => []
-  | .display :: rest => strip rest
-  | c :: rest => c :: strip rest
 
 /-- calling display() - any number of times, at any points of a history - changes neither the
     final state nor the effect of any later operation -/
@@ -116,3 +99,4 @@ example :
 
 end C10
 end Memterm
+
